@@ -17,7 +17,7 @@ class PreludeMixin:
                 'float', 'bool', 'isinstance', 'all', 'any', 'zip', 'enumerate', 'reversed', 'sum', 'abs',
                 'getattr', 'pow', 'iter', 'next', 'type', 'repr', 'print', 'frozenset', 'hasattr'}
     SPEC_BUILTINS = {'vec_le', 'vec_ge', 'vec_lt', 'vec_eq', 'vec_zero', 'dom', 'is_none', 'to_real', 'length',
-                     'keys_subset', 'str_to_int', 'is_digits', 'select', 'strlen', 'cls_is', 'distinct_list'}
+                     'keys_subset', 'str_to_int', 'alive', 'in_prefix', 'name_of', 'str_of', 'is_digits', 'select', 'strlen', 'cls_is', 'distinct_list'}
     LIB_CONSTS = {'sys.maxsize': 9223372036854775807, 'np.inf': INF, 'numpy.inf': INF, 'math.inf': INF}
     LIB_MODULES = {'six.moves', 'os.path', 'six.moves.urllib', 'np.random'}
 
@@ -28,7 +28,7 @@ class PreludeMixin:
         if isinstance(k, KList):
             def get(s, i, it=it, k=k):
                 v = ops.list_get(it, i)
-                s.assume(*self.type_facts(v, k.elem, s))
+                self.tf_assume(s, self.type_facts(v, k.elem, s))
                 return v
             return it.t[0], get
         if isinstance(k, (KDict, KSet)):
@@ -40,11 +40,11 @@ class PreludeMixin:
             n = keys.t[0]
             def get(s, i, keys=keys, d=d, mode=mode):
                 kv = ops.list_get(keys, i)
-                s.assume(*self.type_facts(kv, d.kind.key, s))
+                self.tf_assume(s, self.type_facts(kv, d.kind.key, s))
                 if mode == 'keys':
                     return kv
                 val = ops.dict_get(d, kv)
-                s.assume(*self.type_facts(val, d.kind.val, s))
+                self.tf_assume(s, self.type_facts(val, d.kind.val, s))
                 return val if mode == 'values' else TupleVal([kv, val])
             return n, get
         if isinstance(it, tuple) and it and it[0] == 'range':
@@ -97,14 +97,23 @@ class PreludeMixin:
                 elem_kind = ek
             return self.coerce_to(st, it, KList(elem_kind))
         n, get = self.as_sequence(st, fr, it)
-        probe = get(st, z3.Int(fresh_name('p')))
+        pv = z3.Int(fresh_name('p'))
+        b = self.push_binder([pv])
+        try:
+            probe = get(st, pv)
+        finally:
+            self.pop_binder(b)
         if isinstance(probe, TupleVal):
             probe = ops.pack_tuple(probe.items)
         ek = elem_kind or probe.kind
         lst = fresh_val(KList(ek), 'mat')
         j = z3.Int(fresh_name('j'))
         st.assume(lst.t[0] == n)
-        item = get(st, j)
+        b = self.push_binder([j])
+        try:
+            item = get(st, j)
+        finally:
+            self.close_binder(st, b, z3.And(j >= 0, j < n))
         if isinstance(item, TupleVal):
             item = ops.pack_tuple(item.items)
         item = ops.coerce(item, ek)
@@ -212,14 +221,17 @@ class PreludeMixin:
         fr.bound = dict(fr.bound)
         was_spec = fr.spec
         fr.spec = True          # element expressions must be total/pure
+        b = self.push_binder([j])
         try:
             item = get(st, j)
             self.bind_pattern(fr.bound, g.target, item)
             elt = self.ev1(e.elt, st, fr)
             conds = [truthy(self.ev1(c, st, fr)) for c in g.ifs]
+            self.flush_axioms(st)
         finally:
             fr.bound = saved
             fr.spec = was_spec
+            self.close_binder(st, b, z3.And(j >= 0, j < n))
         if isinstance(elt, TupleVal):
             elt = ops.pack_tuple(elt.items)
         elt = lift(elt)
@@ -240,12 +252,12 @@ class PreludeMixin:
         st.assume(z3.ForAll([p], z3.Implies(z3.And(p >= 0, p < m),
                                             z3.And(src(p) >= 0, src(p) < n, sub(cond, src(p)), pos(src(p)) == p,
                                                    *[z3.Select(ra, p) == sub(t, src(p)) for ra, t in zip(res.t[1:], elt.t)])),
-                            patterns=[src(p)]))
+                            patterns=[src(p)] + [z3.Select(ra, p) for ra in res.t[1:2]]))
         st.assume(z3.ForAll([j], z3.Implies(z3.And(j >= 0, j < n, cond),
                                             z3.And(pos(j) >= 0, pos(j) < m, src(pos(j)) == j)),
-                            patterns=[pos(j)]))
+                            patterns=[pos(j)] + ([item.t[0]] if isinstance(item, SVal) and z3.is_select(item.t[0]) else [])))
         q = z3.Int(fresh_name('q'))
-        st.assume(z3.ForAll([p, q], z3.Implies(z3.And(p >= 0, p < q, q < m), src(p) < src(q)), patterns=[src(p), src(q)]))
+        st.assume(z3.ForAll([p, q], z3.Implies(z3.And(p >= 0, p < q, q < m), src(p) < src(q)), patterns=[z3.MultiPattern(src(p), src(q))]))
         return res
 
     def call_on_comprehension(self, e, st, fr):
@@ -293,15 +305,18 @@ class PreludeMixin:
                 was = fr.spec
                 fr.spec = True
                 fr.bound = dict(fr.bound)
+                b = self.push_binder([j])
                 try:
                     s_tmp = s
                     item = get(s_tmp, j)
                     self.bind_pattern(fr.bound, g.target, item)
                     c = asz(truthy(self.ev1(comp.elt, s, fr)))
                     fs = [asz(truthy(self.ev1(f, s, fr))) for f in g.ifs]
+                    self.flush_axioms(s)
                 finally:
                     fr.bound = saved
                     fr.spec = was
+                    self.close_binder(s, b, z3.And(j >= 0, j < n))
                 rng = z3.And(j >= 0, j < n, *fs)
                 if name == 'all':
                     outs.append((s, SB(z3.ForAll([j], z3.Implies(rng, c)))))
@@ -384,7 +399,7 @@ class PreludeMixin:
                 has = ops.dict_has(recv, args[0])
                 dflt = args[1] if len(args) > 1 else None
                 v = ops.dict_get(recv, args[0])
-                st.assume(*[z3.Implies(has, f) for f in self.type_facts(v, k.val, st)])
+                self.tf_assume(st, [z3.Implies(has, f) for f in self.type_facts(v, k.val, st)])
                 return [(st, ops.ite(has, v, dflt), None)]
             if meth in ('values', 'keys', 'items', 'itervalues', 'iteritems', 'iterkeys', 'viewvalues'):
                 mode = {'itervalues': 'values', 'iteritems': 'items', 'iterkeys': 'keys', 'viewvalues': 'values'}.get(meth, meth)
@@ -458,7 +473,7 @@ class PreludeMixin:
                                         patterns=[z3.Select(res.t[0], kk)]))
                     return [(st, None, res)]
         if k == KStr or isinstance(recv, str):
-            return [(s, r, None) for s, r in self.str_method(st, fr, lift(recv) if isinstance(recv, str) and any(isinstance(a, SVal) for a in args) else recv, meth, args, kwargs)]
+            return [(s, r, None) for s, r in self.str_method(st, fr, recv, meth, args, kwargs)]
         if isinstance(k, KVec) and meth == 'copy':
             return [(st, recv, None)]
         if isinstance(k, KRef):
@@ -505,7 +520,7 @@ class PreludeMixin:
                 parts.append(self.to_str(x))
             if not parts:
                 return [(st, '')]
-            return [(st, SVal(KStr, [z3.Concat(*parts) if len(parts) > 1 else parts[0]]))]
+            return [(st, SVal(KStr, [ops.str_concat(parts)]))]
         if meth == 'isdigit':
             return [(st, SB(self.is_digits(z)))]
         if meth == 'find':
@@ -545,7 +560,7 @@ class PreludeMixin:
             parts.append(self.to_str(v))
         if not parts:
             return ''
-        return SVal(KStr, [z3.Concat(*parts) if len(parts) > 1 else parts[0]])
+        return SVal(KStr, [ops.str_concat(parts)])
 
     # ------------------------------------------------------------------ builtins & library
     def call_builtin(self, st, fr, fv, args, kwargs):
@@ -559,6 +574,9 @@ class PreludeMixin:
                         raise CheckerError('mutating method %s on a non-lvalue receiver' % q)
                 out.append((s, r))
             return out
+        if q.startswith('libmeth.'):
+            dep = self.reg.contracts['lib:' + q[8:]]
+            return self.apply_lib_contract(st, fr, dep, [fv.selfv] + list(args), kwargs)
         if q.startswith('record.'):
             return self.record_method(st, fr, fv.selfv, q.split('.', 1)[1], args, kwargs)
         if q.startswith('spec.'):
@@ -603,8 +621,10 @@ class PreludeMixin:
                 if ('has_' + key) in sc.fields:
                     has = self.read_field(st, st.heap, recv.z, k.cls, 'has_' + key).z
                     if dflt is None:
-                        dflt = None
-                    return [(st, ops.ite(has, v, dflt if dflt is not None else self.none_of(v.kind)))]
+                        dflt = self.none_of(v.kind)
+                    elif isinstance(dflt, (TupleVal, LocalDict)):
+                        dflt = self.coerce_to(st, dflt, v.kind)
+                    return [(st, ops.ite(has, v, dflt))]
                 return [(st, v)]
         raise CheckerError('record method %s' % meth)
 
@@ -942,6 +962,15 @@ class PreludeMixin:
             return SI(z3.StrToInt(lift(args[0], KStr).z))
         if name == 'is_digits':
             return SB(self.is_digits(lift(args[0], KStr).z))
+        if name == 'in_prefix':
+            lst, n, item = args
+            return SB(self.list_member(lst, lift(n, KInt).z, self.coerce_to(st, item, lst.kind.elem)))
+        if name == 'name_of':
+            return ops.coerce(lift(args[0], KStr), KName)
+        if name == 'str_of':
+            return SVal(KStr, [self.to_str(args[0])])
+        if name == 'alive':
+            return SB(z3.Select(self.alive_arr(st.heap), args[0].z))
         if name == 'cls_is':
             return SB(cls_of_(args[0].z) == self.class_id(args[1]))
         raise CheckerError('spec builtin %s' % name)
